@@ -131,7 +131,9 @@ def run_impl(lines, tag='i', timeout=600, profile='debug'):
             f.write('\n'.join(pending) + '\n')
         if os.path.exists(of):
             os.remove(of)
-        rc, dt = _run([harness_bin(profile), cf, of], timeout)
+        # memory cap: unbounded partial recursion in the crate must die quickly, not eat the machine
+        rc, dt = _run(['bash', '-c', f'ulimit -v 2500000; exec "{harness_bin(profile)}" "{cf}" "{of}"'],
+                      min(timeout, 120 + 0.2 * len(pending)))
         out = read_lines(of)
         done = 0
         for l in out:
